@@ -1656,6 +1656,7 @@ class GroupBy:
         else:
             indexer = slice(None)
             result_index = common_index
+            self._unify_group_key_chunks()
             group_key = self.group_ikey
 
         arg_list = [
